@@ -2,12 +2,13 @@
 SPEC = dict(
     title="Upgrading old snapshot formats is crash-safe",
     pkg="./snapshot", files=["snapshot/c08_verif_test.go"],
-    rule="quick: 3 old-format nodes (the checked-in v7 and v8 fixtures; a generated v8 directory with 3 snapshots, the newest by term rather than by index), real SQLite data; "
-         "thorough: 5 nodes (adds a 1-snapshot v8 directory and a generated v7 directory with an older snapshot lacking state.bin) plus 12 random v7/v8 directories with 1-3 snapshots. "
-         "The real start-up sequence Upgrade7To8 -> Upgrade8To10 -> NewStore runs in a child process that is SIGKILLed (strace inject) just before its K-th "
-         "mkdirat/renameat/unlinkat/rmdir/fsync/ftruncate (thorough: also write/pwrite64) for EVERY K; every 7th image (thorough: every image of the 5 nodes, every 3rd of the random ones) is crashed "
-         "again during its recovery; the sequence is then run to the end. A case is non-trivial when the (first) kill is after the first mutation of the "
-         "directory and before the last one; distinct by store + kill points",
+    rule="quick: 8 old-format nodes (the checked-in v7 and v8 fixtures; generated v8 directories with 1 and 3 snapshots (newest by term, not index) and with a partial older "
+         "snapshot; generated v7 directories with 2-3 snapshots, older ones complete and without state.bin), real SQLite data; thorough adds 12 random v7/v8 directories with 1-3 snapshots. "
+         "(a) The real start-up sequence Upgrade7To8 -> Upgrade8To10 -> NewStore runs in a child process that is SIGKILLed (strace inject) just before its K-th "
+         "mkdirat/renameat/unlinkat/rmdir/fsync/ftruncate (thorough: also write/pwrite64) for EVERY K (quick: on 4 of the nodes); every 7th image (thorough: every image of the hand-picked "
+         "nodes, every 3rd of the random ones) is crashed again during its recovery. (b) For every node, synthesised images: the disk just after the rename of each upgrade step (built with the "
+         "real functions) with EVERY prefix of the old directory's removal unlinked, in sorted and in reverse entry order. The sequence is then run to the end. A case is non-trivial when the "
+         "(first) crash is after the first mutation of the directory and before the last one; distinct by node + kill points / synthesised image",
     exhaustive=False,
     trusted=[
         "the model is the upgrade code WITH .work/fixes/C08-upgrade8to10-resume.patch; on the unfixed tree the oracle reports the crash points after the plan's rename",
@@ -21,7 +22,7 @@ SPEC = dict(
     assumptions=["the old directory holds at least one snapshot and its newest snapshot is complete (v7: has state.bin); nothing else writes to the raft directory while the node starts"],
     level_text="C08_crash_safe_v7 / C08_crash_safe_v8 / C08_crash_sequence: for every size of the old directories, every micro-step and any number of crashes, the next start "
                "completes and leaves exactly the upgraded v10 store; C08_upgraded_stable: later starts do nothing; C08_newest_is_upgraded: the chosen snapshot is maximal in "
-               "(term, index, id). Every crash image of the real code is one of the model's crash images and the real restart from it ends as the model's does.",
+               "(term, index, id); C08_any_remainder_of_v7/_v8: whatever subset of an old directory is left when its removal is interrupted (any unlink order), every restart completes. Every crash image of the real code is one of the model's crash images and the real restart from it ends as the model's does.",
     level_note="Model = Upgrade7To8 and (fixed) Upgrade8To10 as micro-step runs over an abstract raft directory; tie = syscall-level kill of the real start-up sequence, "
                "image membership + final-state comparison; oracle = restart succeeds, one snapshot with the newest original (index, term), same rows, nothing left behind.",
     technique="Coq invariant proof over micro-step runs (crash schema of Lib/C07_Crash.v) + syscall-level crash injection into the real upgrade code",
